@@ -72,6 +72,7 @@ Next ==
     \/ \E f \in Bools : PrepReserve(20, f)
     \/ PrepCommit
     \/ PrepDrop("return")
+    \/ \E rv \in Bools, h \in {0, 3}, n \in {2, 5} : IterMut([sz |-> 8, al |-> 8], rv, h, n)
     \/ \E id \in LiveIds, at \in {1, 8, 16} : Split(id, at)
     \/ ScopeTwice(<<L(40, 32), L(24, 4)>>)
     \/ \E tw \in TwFams, o \in Bools, m \in Bools, i \in Bools, f \in Bools : AllocTryWith(tw, o, m, i, f)
@@ -145,6 +146,7 @@ SimStep ==
     \/ (G("prep") /\ CanFail /\ PrepPush(TRUE))
     \/ (G("prep") /\ PrepReserve(R({1, 3, 10, 40, 300}), FALSE))
     \/ (G("prep") /\ CanFail /\ PrepReserve(R({10, 40, 300, 2000}), TRUE))
+    \/ (G("prep") /\ IterMut(R(SimElems), R(Bools), R({0, 0, 2, 5, 30}), R({0, 1, 3, 5, 9})))
     \/ (G("prep") /\ PrepCommit)
     \/ (G("prep") /\ PrepDrop(R({"return", "unwind"})))
     \/ (G("trywith") /\ \E tw \in {R(TwFams)} : AllocTryWith(tw, R(Bools), R(Bools), FALSE, FALSE))
